@@ -40,9 +40,13 @@ CHECKS = {
          "Each firing of a mutator, in situ or in a direct call on boundary values and exhausted/hostile entropy, is checked against the documented contract; panics are caught.", "DESIGN.md §5 C16", ""),
  "C18": ("fault_enumeration", SIM + "end-of-stream / short-read fault enumeration on the entropy seam: every EntropySource method x argument grid x ALL fuzzer scripts of length <= 2, sampled longer scripts at every cut, sampled PRNG states",
          "The adapters' range contracts and fixed fallbacks are enumerated over all short scripts and sampled beyond.", "DESIGN.md §5 C18", "gen_bytes(usize::MAX) excluded: allocation failure aborts."),
+ "C07": ("exploration", SIM + "seeded baton scheduler over real OS threads (one runs at a time, hand-over at every emission step; policies bursty/uniform/round-robin/PCT-style), twin tasks under simulator-chosen memo hash keys, colocated tasks per worker, plus the same scenario batch in fresh processes; oracle = byte equality with the task run alone",
+         "Interleavings of concurrent generator instances, hash-map seeds and task placement are chosen by a seeded scheduler and are exactly replayable from the recorded schedule string; separate processes are sampled, not controlled.", "DESIGN.md §5 C07", "rayon scheduling inside the CLI, ASLR and the seeds of pointer-keyed sets are varied but not chosen."),
+ "C13": ("exploration", SIM + "real front ends (hook-free CLI binary, action wrapper script, _native Python extension) driven with simulator-drawn options, call sequences and path-keyed filesystem faults (ENOSPC/EISDIR/ENOENT/ENOTDIR, stale files) at sampled rayon worker counts; oracle = hooked library with the corresponding configuration",
+         "Front ends are real binaries/modules built from the working tree; the option space and Python call sequences are sampled by seed; write faults are planted by path so they do not depend on the rayon schedule, which is only sampled via worker counts.", "DESIGN.md §5 C13", "atheris is stubbed; unseeded runs are only checked structurally."),
 }
 PENDING = "check under construction in this session (see DESIGN.md §5)"
-NOT_APPLICABLE = {k: PENDING for k in ["C07","C13"]}
+NOT_APPLICABLE = {}
 
 def main():
     checks = []
